@@ -37,20 +37,24 @@ def neededDecimals (x : Rat) : Option Nat :=
 
 def halfUnit (k : Nat) : Rat := 1 / (2 * ((10 ^ k : Nat) : Rat))
 
+/-- A decimal text read back into a binary64 number is the double nearest to it: the representation error of
+    that conversion (at most one unit in the last place, ≤ |x|·2⁻⁵²) is allowed on top of the decimal tolerance. -/
+def reprSlack (x : Rat) : Rat := absR x / ((2 ^ 52 : Nat) : Rat)
+
 /-- one coordinate field: exactly 8 columns, enough decimals, denotes `x` to half a unit of its last digit -/
 def coordOK (x : Rat) (field : Str) : Bool :=
   field.length = 8 &&
   (let t := strip field
    let k := decimalsOf t
    match parseFloat t, neededDecimals x with
-   | .ok v, some need => decide (need ≤ k) && decide (absR (v - x) ≤ halfUnit k)
+   | .ok v, some need => decide (need ≤ k) && decide (absR (v - x) ≤ halfUnit k + reprSlack x)
    | _, _ => false)
 
 /-- a two-decimal field (occupancy, B-factor): 6 columns, value within 0.005 -/
 def fixed2OK (x : Rat) (field : Str) : Bool :=
   field.length = 6 &&
   (match parseFloat (strip field) with
-   | .ok v => decide (absR (v - x) ≤ (1 : Rat) / 200)
+   | .ok v => decide (absR (v - x) ≤ (1 : Rat) / 200 + reprSlack x)
    | _ => false)
 
 def blank (s : Str) : Bool := s.all (· = ' ')
@@ -84,9 +88,30 @@ def lineFailures (a : Atom) (line : Str) : List String :=
 def readBackOK (a b : Atom) (kx ky kz : Nat) : Bool :=
   a.serial = b.serial && a.name = b.name && a.altLoc = b.altLoc && a.resName = b.resName &&
   a.chainID = b.chainID && a.resSeq = b.resSeq && a.iCode = b.iCode && a.element = b.element &&
-  decide (absR (a.x - b.x) ≤ halfUnit kx) && decide (absR (a.y - b.y) ≤ halfUnit ky) &&
-  decide (absR (a.z - b.z) ≤ halfUnit kz) &&
-  decide (absR (a.occ - b.occ) ≤ (1 : Rat) / 200) && decide (absR (a.temp - b.temp) ≤ (1 : Rat) / 200)
+  decide (absR (a.x - b.x) ≤ halfUnit kx + reprSlack a.x) && decide (absR (a.y - b.y) ≤ halfUnit ky + reprSlack a.y) &&
+  decide (absR (a.z - b.z) ≤ halfUnit kz + reprSlack a.z) &&
+  decide (absR (a.occ - b.occ) ≤ (1 : Rat) / 200 + reprSlack a.occ) &&
+  decide (absR (a.temp - b.temp) ≤ (1 : Rat) / 200 + reprSlack a.temp)
+
+/-- the values at which the coordinate format switches precision (±(10^m − 1/2) on the positive side for m = 4,5,6,
+    10^m − 1/2 on the negative side for m = 3,4,5) -/
+def switchThresholds : List Rat :=
+  [(19999 : Rat) / 2, (199999 : Rat) / 2, (1999999 : Rat) / 2, -(1999 : Rat) / 2, -(19999 : Rat) / 2, -(199999 : Rat) / 2]
+
+def onThreshold (x : Rat) : Bool := switchThresholds.contains x
+
+/-- Writing the table that was read back (`b`) again: line `l2` must denote the same values as the first export `l1`,
+    and be the identical text except in a coordinate field whose value sits exactly on a format-switch threshold
+    (negative zero cannot be told apart here and is tolerated the same way: equal value, text may differ). -/
+def reexportOK (b : Atom) (l1 l2 : Str) : Bool :=
+  let sameVal (a c : Nat) : Bool :=
+    match parseFloat (cols l1 a c), parseFloat (cols l2 a c) with
+    | .ok u, .ok v => u == v
+    | _, _ => false
+  let coord (x : Rat) (a c : Nat) : Bool :=
+    sameVal a c && (rawCols l1 a c == rawCols l2 a c || onThreshold x || x == 0)
+  rawCols l1 1 30 == rawCols l2 1 30 && rawCols l1 55 80 == rawCols l2 55 80 &&
+  coord b.x 31 38 && coord b.y 39 46 && coord b.z 47 54
 
 /-- values for which the property promises a well-formed line -/
 def Fits (a : Atom) : Prop :=
